@@ -621,6 +621,8 @@ func main() {
 	r.CasesProc("cold-start", 8, ev.Opt{Procs: 8}, coldCase)
 	r.Cases("wrapped-interop", r.N(1500, 60000), ev.Opt{HangViolation: true, MaxCaseSeconds: 120, Workers: 16}, wrappedCase)
 	r.Cases("long-args", r.N(500, 20000), hv, longCase)
+	r.Cases("named-types", r.N(2000, 60000), hv, namedCase)
+	r.Require("named_type_cases", 1500)
 	r.Require("wrapped_decrypted", 1200)
 	r.Require("wrapped_multi_line", 800)
 	r.Require("wrapped_three_or_more_lines", 500)
